@@ -107,12 +107,19 @@ func newHist(r *kit.Run, rng *rand.Rand, netID uint32, nVals int) *hist {
 		krng := r.Rand(fmt.Sprintf("keys-%s-%d", key, len(pool)))
 		vals := pk.NewKeys(krng, nVals)
 		owner := pk.NewKey(krng)
-		w, err := cs.NewWorld(netID, vals, owner)
+		wallets := make([]*pk.Key, len(vals))
+		for i := range wallets {
+			if i%2 == 1 { // every second pool entry is registered by a separate wallet account
+				wallets[i] = pk.NewKey(krng)
+			}
+		}
+		w, err := cs.NewWorldWallets(netID, vals, wallets, owner)
 		if err != nil {
 			r.Inconclusive("world: " + err.Error())
 			return nil
 		}
-		t = &tpl{w: w, outs: pk.NewKeys(krng, 2), asset: map[uint64][]byte{}}
+		// outsiders: two unrelated keys plus the wallet accounts of the validators (not validators themselves)
+		t = &tpl{w: w, outs: append(pk.NewKeys(krng, 2), w.WalletKeys()...), asset: map[uint64][]byte{}}
 		specs := []cs.ChainSpec{
 			{ID: srcVoteA, Router: utils.VOTE_ROUTER}, {ID: srcVoteB, Router: utils.VOTE_ROUTER},
 			{ID: dstEth, Router: utils.ETH_ROUTER, CCMC: []byte{1, 2, 3}}, {ID: dstVote, Router: utils.VOTE_ROUTER},
@@ -815,6 +822,7 @@ func TestC20(t *testing.T) {
 	otherNetworks(r)
 	r.Set("routers_covered", []string{"vote (consensus_vote)", "ripple (as source)", "eth (ethash seal bypassed by the verif hook; header rules and Merkle-Patricia proofs real)", "bsc (really sealed Parlia headers)"})
 	r.Set("routers_uncovered", []string{"heco", "hsc", "msc", "pixiechain", "polygon bor", "bytom", "quorum", "cosmos", "okex", "ont", "neo", "neo3", "neo3legacy", "btc", "zilliqa", "zilliqalegacy", "starcoin", "harmony (BLS stub)"})
+	r.Assume("every second validator's pool entry is registered by a separate wallet account (registered address != node-key address); validators are identified by the key-derived address, the wallet accounts vote as outsiders")
 	r.Assume("routers other than vote / ripple-as-source / eth / bsc reach the same CheckDoneTx/PutDoneTx pair after their proof verification; their deposits are not synthesised in this check (proof logic is covered by C23/C30/C31), so the verdict holds for the four routers exercised only")
 	r.Assume("for the vote-authenticated routers a 'submission' is a voting round; it is decided at the call that brings the distinct-validator count to ceil(2N/3). Votes before that call may record themselves (voteInfo only); a repeated round on an already released subject may return success but must change nothing")
 	r.Assume("failure atomicity of a single call is provided by the transaction layer (C15); the driver reproduces HandleInvokeTransaction")
